@@ -21,8 +21,9 @@ environment, not about the library):
     in try/except and an exception it raises is recorded in the list `xs` as [observer, name];
   * a callback never emits into the subject (re-entrant emission is outside the property's quantifier).
 
-Output: {"logs": [[entry, ...] per observer], "xs": [[i, name], ...], "raised": [null | name per call]};
-entry = ["N", v] | ["E", name] | ["C"]; xs = exceptions caught by reacting callbacks, in order (who, what).
+Output: {"logs": [[entry, ...] per observer], "xs": [[i, name], ...], "raised": [null | name per call], "nobs": [n per call]};
+entry = ["N", v] | ["E", name] | ["C"]; xs = exceptions caught by reacting callbacks, in order (who, what);
+nobs = len(subject.observers) after each call (the anchored state; compared with the model, not judged by the oracle).
 """
 import fw
 from fw import InjectedError, enc, err_name
@@ -34,6 +35,7 @@ THEOREMS = [
     "C20.snapshot_is_members",
     "C20.stopped_iff_detached",
     "C20.subject_broadcast_exact",
+    "C20.received_in_call_order",
     "C20.log_is_received",
     "C20.detached_observer_silent",
     "C20.late_gets_terminal_only",
@@ -147,7 +149,7 @@ def gen_case(rng, kind, tier):
 
 
 def cases(rng, tier):
-    for _ in range(fw.tier_scale(tier, 3000, 30000)):
+    for _ in range(fw.tier_scale(tier, 4000, 120000)):
         yield gen_case(rng, KIND, tier)
 
 
@@ -215,7 +217,7 @@ def make_subject(case):
 def impl(case):
     subject = make_subject(case)
     env = _Env(case, subject)
-    raised = []
+    raised, nobs = [], []
     for c in case["calls"]:
         try:
             if c[0] == "next":
@@ -229,7 +231,8 @@ def impl(case):
             raised.append(None)
         except Exception as e:  # noqa  what the caller of this history call sees
             raised.append(err_name(e))
-    return {"logs": env.logs, "xs": env.xs, "raised": raised}
+        nobs.append(len(subject.observers))   # the anchored state `observers` (compared with the model only, not judged by the oracle)
+    return {"logs": env.logs, "xs": env.xs, "raised": raised, "nobs": nobs}
 
 
 def canon_model(case, resp):
@@ -386,6 +389,7 @@ def oracle(case, out):
     exp = spec.run()
     if spec.outside:
         return None
+    out = {k: v for k, v in out.items() if k != "nobs"}
     if fw.key(exp) != fw.key(out):
         for i, (a, b) in enumerate(zip(exp["logs"], out["logs"])):
             if fw.key(a) != fw.key(b):
